@@ -66,7 +66,7 @@ theorem recovery_next_build_eq_clean {P : Params κ} (hG : Good P) (hfx : P.fx.g
 section Example
 /-- toy parameters: every key is 0, every command succeeds and writes nothing -/
 def exP : Params Nat := ⟨fun _ => 0, fun _ _ => ⟨true, [], []⟩, Fixes.current⟩
-def exKS : KeyState Nat := ⟨[], ⟨[], 0, [], []⟩, [], [], [], [], []⟩
+def exKS : KeyState Nat := ⟨[], ⟨[], 0, [], [], false⟩, [], [], [], [], []⟩
 def exRes : Result Nat := mkRes false exKS 0 []
 /-- file names: key `n` is `n` zero bytes; every stored result unmarshals to `exRes` -/
 def exCd : Codec Nat := ⟨fun n => List.replicate n 0, id, fun _ => some exRes⟩
